@@ -10,8 +10,13 @@ from vsym.models import RopeFile, SymDate
 _CTX = {}
 
 
-def M(optimize=0, stubs=None, key=None):
+DEFAULT_OPT = [0]       # set by the runner for the python-O twin of an obligation
+
+
+def M(optimize=None, stubs=None, key=None):
     """the normalised cardutil modules, loaded once per process from /repo's working tree"""
+    if optimize is None:
+        optimize = DEFAULT_OPT[0]
     k = key or ('std', optimize)
     if k not in _CTX:
         from vsym import models as _models
@@ -117,3 +122,13 @@ class guard:
             rp = self.replay() if callable(self.replay) else self.replay
             raise core.Violation('%s raised %s: %s' % (self.what, et.__name__, str(e)[:80]), {'key': self.key, 'replay': rp})
         return False
+
+
+def is_true(x):
+    """`x is True` for a value computed by the code under test: a symbolic truth value that Python's `and`/`or` handed through
+    (the operand object itself) counts as the bool it stands for"""
+    return bool(x) if isinstance(x, core.SBool) else x is True
+
+
+def is_false(x):
+    return (not bool(x)) if isinstance(x, core.SBool) else x is False
